@@ -4,6 +4,7 @@
    keeps them — accounting relative to the restored counters). *)
 From Coq Require Import List Bool Arith ZArith.
 From HV Require Import Ord Sprout Select SelectFacts Tree TreeLemmas TreeInv TreeRun TreeRan Hist HistFacts.
+From HV Require Import DriverPrim Driver DriverFacts GenDriver GenEquivDriver DriverCode.
 Import ListNotations.
 
 (* the invariants are inductive from ANY state satisfying them, not only from the initial one: structure (WFT), level limit (LL),
@@ -36,3 +37,13 @@ Print Assumptions C19_best_never_worse_after_resume.
 Example C19_example : exists s1 s2, run ex_cfg (init 10) (firstn 8 ex_events) = Some s1 /\ pc s1 = PMain /\ length (demes s1) = 3 /\
   run ex_cfg s1 (skipn 8 ex_events) = Some s2 /\ pc s2 = PDone /\ total_evals (demes s2) - total_evals (demes s1) = clock s2 - clock s1.
 Proof. vm_compute. eexists. eexists. repeat split. Qed.
+
+(* ---------------------------------------------------------------- the same for the run() TRANSLATED from the current sources: resumed from any
+   boundary state satisfying the invariants (what a restored snapshot is), it performs an accepted machine run whose every state satisfies
+   them again (structure, level limit, exact accounting relative to the restored counters, wind-down, hibernation) *)
+Theorem C19_translated_resume c fuel s evs s' rest :
+  gens_ok c -> pc s = PMain -> INV c s -> exec (gen_tree_run c fuel) s evs = Some (tt, s', rest) ->
+  exists used s'', evs = used ++ rest /\ run c s used = Some s'' /\ pc s'' = PDone /\ set_pc s'' PMain = set_pc s' PMain /\ INV c s'' /\
+    (forall k s_k, run c s (firstn k used) = Some s_k -> INV c s_k).
+Proof. exact (code_resume_keeps_invariants c fuel s evs s' rest). Qed.
+Print Assumptions C19_translated_resume.
